@@ -80,26 +80,60 @@ def volt_expr(v, remap):
         if v.get('cparam', {}).get(name):
             terms.append('%s*%s' % (v['cparam'][name], name))
             continue
+        if v.get('dparam', {}).get(name) and name not in remap:
+            terms.append('%s/%s' % (name, v['dparam'][name]))      # SimpleExpression.__truediv__
+            continue
+        var = name
         if name in remap:
-            var, s, o = remap[name]
-            c2 = c / s
-            base -= c2 * o
-            terms.append('(%s)*%s' % (_num_repr(c2, v.get('ints')), var))
+            var, s, o = remap[name][:3]
+            if len(remap[name]) > 3:
+                # the index enters through two mapped variables: SimpleExpression + SimpleExpression on the same name
+                var2, s2, o2 = remap[name][3:]
+                c2 = c / 2 / s2
+                base -= c2 * o2
+                terms.append((c2, var2))
+                c = c / 2
+            c = c / s
+            base -= c * o
+        terms.append((c, var))
+    # rendering style: exercises SimpleExpression.__mul__/__rmul__/__truediv__/__add__/__radd__/__sub__/__rsub__/__neg__
+    style = v.get('style', 0)
+    out = '(%s)' % _num_repr(base, v.get('ints'))
+    for k, t in enumerate(terms):
+        if isinstance(t, str):
+            out += ' + ' + t
+            continue
+        c, var = t
+        st = (style + k) % 5
+        if st == 1:
+            out += ' + %s*(%s)' % (var, _num_repr(c, v.get('ints')))
+        elif st == 2 and c != 0 and (1 / c).denominator in (1, 2, 4, 8) and abs(1 / c) <= 64:
+            out += ' + %s/(%s)' % (var, _num_repr(1 / c, v.get('ints')))
+        elif st == 3:
+            out += ' - (%s)*%s' % (_num_repr(-c, v.get('ints')), var)
+        elif st == 4:
+            out = '%s*(%s) + ' % (var, _num_repr(c, v.get('ints'))) + out if k == 0 else out + ' - %s*(%s)' % (var, _num_repr(-c, v.get('ints')))
         else:
-            terms.append('(%s)*%s' % (_num_repr(c, v.get('ints')), name))
-    return ' + '.join(['(%s)' % _num_repr(base, v.get('ints'))] + terms)
+            out += ' + (%s)*%s' % (_num_repr(c, v.get('ints')), var)
+    return out
 
 
 def build_template(t):
     from qupulse.pulses import ConstantPT, SequencePT, RepetitionPT, ForLoopPT, MappingPT
     k = t['t']
     if k == 'hold':
-        remap = {name: (m['var'], F(m['scale']), F(m['shift'])) for name, m in t.get('via_map', {}).items()}
+        remap = {name: (m['var'], F(m['scale']), F(m['shift'])) + ((m['var2'], F(m['scale2']), F(m['shift2'])) if 'var2' in m else ())
+                 for name, m in t.get('via_map', {}).items()}
         dur = F(t['dur'])
         dur = int(dur) if dur.denominator == 1 else float(dur)
         pt = ConstantPT(dur, {ch: volt_expr(v, remap) for ch, v in t['v'].items()})
         if remap:
-            pm = {var: '(%s)*%s + (%s)' % (_num_repr(s, True), name, _num_repr(o, True)) for name, (var, s, o) in remap.items()}
+            pm = {}
+            for name, r in remap.items():
+                for vso in (r[:3], r[3:]):
+                    if vso:
+                        var, s, o = vso
+                        pm[var] = '(%s)*%s + (%s)' % (_num_repr(s, True), name, _num_repr(o, True))
             pt = MappingPT(pt, parameter_mapping=pm, allow_partial_parameter_mapping=True)
         return pt
     if k == 'seq':
@@ -124,6 +158,8 @@ def params_of(t, acc=None):
                 acc[v['param']] = int(v['v']) if v['k'] == 'int' else float(F(v['v']))
             for name, p in v.get('cparam', {}).items():
                 acc[p] = float(F(v['coefs'][name]))
+            for name, p in v.get('dparam', {}).items():
+                acc[p] = float(1 / F(v['coefs'][name]))
     elif t['t'] == 'seq':
         for x in t['l']:
             params_of(x, acc)
@@ -218,10 +254,18 @@ def gen_volt(rng, idxs, opts):
     v = {'k': 'aff', 'base': fs(rnd_dyadic(rng, -8, 8, 4) if rng.random() < 0.7 else F(0)), 'coefs': coefs}
     if rng.random() < 0.15:
         v['ints'] = True
+    if rng.random() < 0.6:
+        v['style'] = rng.randint(1, 4)
+    if rng.random() < 0.12:
+        name = rng.choice(list(coefs))
+        c = F(coefs[name])
+        if c != 0 and (1 / c).denominator in (1, 2, 4, 8) and not v.get('cparam', {}).get(name):
+            v['dparam'] = {name: 'pd%d' % rng.randint(0, 99)}
     if rng.random() < opts.get('p_zero_coef', 0.03):
         name = rng.choice(list(coefs))
         coefs[name] = '0'
         v['cparam'] = {name: 'pc%d' % rng.randint(0, 99)}
+        v.pop('dparam', None)
     return v
 
 
@@ -237,9 +281,13 @@ def gen_hold(rng, chans, idxs, opts):
         for name in used:
             if rng.random() < 0.7:
                 vm[name] = {'var': 'm_' + name, 'scale': fs(rng.choice([1, 2, -1, F(1, 2), -2])), 'shift': fs(rng.randint(-2, 2))}
+                if rng.random() < 0.35:
+                    vm[name].update(var2='n_' + name, scale2=fs(rng.choice([1, 2, -1, -2])), shift2=fs(rng.randint(-2, 2)))
         if vm:
             # every aff voltage of this hold must use the mapped variable for a mapped index
             t['via_map'] = vm
+            for v in t['v'].values():
+                v.pop('dparam', None)
     return t
 
 
@@ -678,10 +726,8 @@ def classify(case, obs):
     tree = case['tree']
     if 'crash' in obs or 'hang' in obs:
         return None
-    if case['kind'] == 'scale':
-        if any(h[0] is None for h in case['hw'][:-1]):
-            return 'unused-outputs-collapse'
-        return None
+    if case['kind'] == 'scale' and any(h[0] is None for h in case['hw'][:-1]):
+        return 'unused-outputs-collapse'
     if _has(tree, lambda x: x['t'] == 'hold' and any(v['k'] == 'aff' and all(F(c) == 0 for c in v['coefs'].values())
                                                      for v in x['v'].values())):
         return 'zero-factor-aliases-plain'
